@@ -116,6 +116,8 @@ type netSim struct {
 	nodes   []*netNode
 	knobs   netKnobs
 	perNode map[int]nodeLimits // per-node overrides of the size limits (by node id)
+	// defaultConns: addresses configured as the network's default (trusted) peers
+	defaultConns []string
 	linkSeq int
 	// monitor is called for every frame a real node puts on the wire
 	monitor func(from *netNode, l *link, frame []byte)
@@ -176,6 +178,11 @@ func (ns *netSim) addDaemon(n *node, ip string, port uint16, mirror uint32) *net
 	if ns.knobs.maxIncomingMsgLen > 0 {
 		cfg.Pool.MaxIncomingMessageLength = ns.knobs.maxIncomingMsgLen
 		cfg.Daemon.MaxIncomingMessageLength = uint64(ns.knobs.maxIncomingMsgLen)
+	}
+	if len(ns.defaultConns) > 0 {
+		cfg.Pex.DefaultConnections = append([]string{}, ns.defaultConns...)
+		cfg.Daemon.DefaultConnections = append([]string{}, ns.defaultConns...)
+		cfg.Pool.DefaultConnections = append([]string{}, ns.defaultConns...)
 	}
 	cfg.Pex.DataDirectory = cfg.Daemon.DataDirectory
 	cfg.Pex.Max = 64
